@@ -1240,11 +1240,15 @@ func valueFromIndex(info *mapper.Info, columnKeys []model.ColumnKey) (interface{
 			}
 			// if object is nil dont try to encode it
 			value := reflect.ValueOf(val)
-			if value.Kind() == reflect.Invalid {
-				continue
+			isNil := value.Kind() == reflect.Invalid || (value.Kind() == reflect.Pointer && value.IsNil())
+			// encode whether there is a value, otherwise an unset column
+			// followed by a set column is the same as the other way around
+			err = enc.Encode(!isNil)
+			if err != nil {
+				return "", err
 			}
 			// if object is a nil pointer dont try to encode it
-			if value.Kind() == reflect.Pointer && value.IsNil() {
+			if isNil {
 				continue
 			}
 			err = enc.Encode(val)
